@@ -1,6 +1,7 @@
 import ScVerif.Base.Line
 import ScVerif.C03.Model
 import ScVerif.C03.Equiv
+import ScVerif.C03.Tol
 import ScVerif.C03.Compose
 import ScVerif.C03.IcptDef
 /-!
@@ -30,7 +31,9 @@ Answer: `store=…|S0=<live|gone|unreg>:<view>:<events>|…|pubs=<in flight>|loc
 
 Decision tables (K2): `fwd <incl> <mask> <id> <old|-> <new|->` — one change through the forwarder: `drop` or
 `<A|U|R>:<old>:<new>`; `merge <A|U|P|R>/<old|->/<new|-> <A|U|P|R>/<old|->/<new|->` — the merge stage holding the first
-change receives the second (same id): `cancel` or `<A|U|R>:<old>:<new>`.
+change receives the second (same id): `cancel` or `<A|U|R>:<old>:<new>`; `approx <num> <den> <margin> <x> <y>` — `cmp.FloatValueApprox(num/den, margin)` on the
+integers x, y: `<0|1>/<0|1>` = the comparer itself (`approxInt`) / as `cmp.Equal` applies it to a scalar field
+(`approxField`: a zero field is unpopulated and equivalent to a zero field only).
 
 `pullid <id> <init> <progs> <subs> <sched>` | `pullidi <m> <id> <init> <progs> <subs> <sched>` — the same run, read as `Collection.PullID id` by subscriber 0:
 `store=…|vals=<values delivered, `;` separated>|ended=<0|1>` (`Sub.pullID`, `Sub.pullIDEnded`).
@@ -127,8 +130,7 @@ def cmpOf (eq : V → V → Bool) : Option V → Option V → Bool
 /-- one float field under `cmp.Equal(cmp.FloatValueApprox(0, 2))`: `equalMessage` first compares which fields are
 POPULATED (a proto3 scalar at its zero value is not), so zero is equivalent to zero only; two populated fields are
 equivalent when within 2 of each other -/
-def tolField (x y : Int) : Bool :=
-  if x = 0 ∨ y = 0 then x == y else decide ((x - y).natAbs ≤ 2)
+def tolField (x y : Int) : Bool := approxField 0 1 2 x y
 
 /-- the resource's equivalence: (applied as `Value.Pull` does?, the comparer) -/
 def parseEq? (c : Char) : Option (Option (Bool × (Option V → Option V → Bool))) :=
@@ -234,6 +236,15 @@ def handleTable (toks : List String) : Option String :=
     match fwdEv incl mask ⟨id, o, n, o.isNone, 0⟩ with
     | none => pure "drop"
     | some e => pure (showChange e)
+  | ["approx", num, den, margin, x, y] => do
+    let num ← parseNat? num
+    let den ← parseNat? den
+    let margin ← parseNat? margin
+    let x ← parseInt? x
+    let y ← parseInt? y
+    if den = 0 then none else
+    let b := fun (v : Bool) => if v then "1" else "0"
+    pure (b (approxInt num den margin x y) ++ "/" ++ b (approxField num den margin x y))
   | ["merge", a, b] => do
     let a ← parseChange? a
     let b ← parseChange? b
